@@ -26,6 +26,14 @@ type propCfg struct {
 	Deadline [2]time.Duration // per shard
 	Level    string
 	Env      []string
+	Extra    []part // further test functions of the same property (e.g. a -race build)
+}
+
+// part is one (test function, build mode) of a check; shards of all parts are merged.
+type part struct {
+	Test   string
+	Race   bool
+	Shards [2]int
 }
 
 var min = time.Minute
@@ -50,7 +58,8 @@ var props = map[string]propCfg{
 	"C17": {Test: "^TestC17$", Shards: [2]int{12, 16}, Deadline: [2]time.Duration{8 * min, 60 * min}, Level: "exploration"},
 	"C18": {Test: "^TestC18$", Race: true, Shards: [2]int{4, 8}, Deadline: [2]time.Duration{8 * min, 60 * min}, Level: "exploration"},
 	"C19": {Test: "^TestC19$", Shards: [2]int{12, 16}, Deadline: [2]time.Duration{8 * min, 60 * min}, Level: "exploration"},
-	"C20": {Test: "^TestC20$", Race: true, Shards: [2]int{12, 16}, Deadline: [2]time.Duration{8 * min, 60 * min}, Level: "fault_enumeration"},
+	"C20": {Test: "^TestC20$", Shards: [2]int{10, 12}, Deadline: [2]time.Duration{8 * min, 60 * min}, Level: "fault_enumeration",
+		Extra: []part{{Test: "^TestC20Race$", Race: true, Shards: [2]int{4, 4}}}},
 }
 
 type violation struct {
@@ -161,37 +170,82 @@ func main() {
 	}
 	start := time.Now()
 
-	// 1. build the test binary from /repo's working tree
-	bin := filepath.Join(root, ".bin", id+".test")
-	buildArgs := []string{"test", "-c", "-mod=mod", "-tags", "verif", "-vet=off", "-o", bin}
-	if cfg.Race {
-		buildArgs = append(buildArgs, "-race")
+	// 1. build the test binaries from /repo's working tree
+	parts := append([]part{{Test: cfg.Test, Race: cfg.Race, Shards: cfg.Shards}}, cfg.Extra...)
+	bins := map[bool]string{}
+	for _, pt := range parts {
+		if _, done := bins[pt.Race]; done {
+			continue
+		}
+		bin := filepath.Join(root, ".bin", id+".test")
+		buildArgs := []string{"test", "-c", "-mod=mod", "-tags", "verif", "-vet=off"}
+		if pt.Race {
+			bin = filepath.Join(root, ".bin", id+".race.test")
+			buildArgs = append(buildArgs, "-race")
+		}
+		buildArgs = append(buildArgs, "-o", bin, "./h/props")
+		cmd := exec.Command("go", buildArgs...)
+		cmd.Dir = root
+		cmd.Env = cleanEnv()
+		if out, err := cmd.CombinedOutput(); err != nil {
+			fmt.Printf("BUILD-FAILED property=%s\n%s\n", id, out)
+			os.Exit(2)
+		}
+		bins[pt.Race] = bin
 	}
-	buildArgs = append(buildArgs, "./h/props")
-	cmd := exec.Command("go", buildArgs...)
-	cmd.Dir = root
-	cmd.Env = cleanEnv()
-	if out, err := cmd.CombinedOutput(); err != nil {
-		fmt.Printf("BUILD-FAILED property=%s\n%s\n", id, out)
-		os.Exit(2)
+	if id == "C20" {
+		stub := filepath.Join(root, ".bin", "stubgo")
+		built := false
+		for _, cc := range []string{"clang", "gcc", "cc"} {
+			if _, err := exec.LookPath(cc); err != nil {
+				continue
+			}
+			cmd := exec.Command(cc, "-O1", "-static", "-o", stub, filepath.Join(root, "cmd", "stubgo", "stubgo.c"))
+			if err := cmd.Run(); err == nil {
+				built = true
+				break
+			}
+		}
+		if !built { // same behaviour, slower start-up
+			cmd := exec.Command("go", "build", "-mod=mod", "-o", stub, "./cmd/stubgo")
+			cmd.Dir = root
+			cmd.Env = cleanEnv()
+			if out, err := cmd.CombinedOutput(); err != nil {
+				fmt.Printf("BUILD-FAILED property=%s (stubgo)\n%s\n", id, out)
+				os.Exit(2)
+			}
+		}
 	}
-
 	work := filepath.Join(root, ".work", id)
 	os.RemoveAll(work)
 	os.MkdirAll(work, 0o755)
 
-	nsh := cfg.Shards[ti]
-	if replay != "" {
-		nsh = 1
-		if !filepath.IsAbs(replay) {
-			replay, _ = filepath.Abs(replay)
+	type shardPlan struct {
+		test, bin string
+		idx, n    int
+	}
+	var plan []shardPlan
+	for pi, pt := range parts {
+		n := pt.Shards[ti]
+		if s := os.Getenv("VERIF_SHARDS"); s != "" && pi == 0 {
+			if v, err := strconv.Atoi(s); err == nil && v > 0 {
+				n = v
+			}
+		}
+		if replay != "" {
+			if pi > 0 {
+				break
+			}
+			n = 1
+		}
+		for k := 0; k < n; k++ {
+			plan = append(plan, shardPlan{pt.Test, bins[pt.Race], k, n})
 		}
 	}
-	if s := os.Getenv("VERIF_SHARDS"); s != "" {
-		if v, err := strconv.Atoi(s); err == nil && v > 0 {
-			nsh = v
-		}
+	if replay != "" && !filepath.IsAbs(replay) {
+		replay, _ = filepath.Abs(replay)
 	}
+	nsh := len(plan)
 	deadline := cfg.Deadline[ti]
 
 	type result struct {
@@ -211,14 +265,15 @@ func main() {
 			logf := filepath.Join(work, fmt.Sprintf("shard-%d.log", k))
 			ctx, cancel := context.WithTimeout(context.Background(), deadline)
 			defer cancel()
-			c := exec.CommandContext(ctx, bin, "-test.run", cfg.Test, "-test.timeout", "0", "-test.v")
+			bin := plan[k].bin
+			c := exec.CommandContext(ctx, bin, "-test.run", plan[k].test, "-test.timeout", "0", "-test.v")
 			c.Dir = filepath.Join(root, "h", "props")
 			shardSeed := splitmix(seed*1000003 + uint64(k))
 			if shardSeed == 0 {
 				shardSeed = 1
 			}
 			env := cleanEnv(append([]string{
-				"VERIF_ROOT=" + root, "VERIF_TIER=" + tier, "VERIF_SHARD=" + strconv.Itoa(k), "VERIF_NSHARDS=" + strconv.Itoa(nsh),
+				"VERIF_ROOT=" + root, "VERIF_TIER=" + tier, "VERIF_SHARD=" + strconv.Itoa(plan[k].idx), "VERIF_NSHARDS=" + strconv.Itoa(plan[k].n),
 				"VERIF_SHARD_SEED=" + strconv.FormatUint(shardSeed, 10), "VERIF_OUT=" + out, "VERIF_REPLAY=" + replay,
 				"VERIF_BIN=" + bin, "VERIF_WORK=" + work,
 			}, cfg.Env...)...)
